@@ -711,6 +711,8 @@ def expand_font(tokens, name):
 
     token = tokens.pop()
     if token.type == 'literal' and token.value == '/':
+        if not tokens:
+            raise InvalidValues
         token = tokens.pop()
         if line_height([token]) is None:
             raise InvalidValues
